@@ -453,6 +453,12 @@ def generate(rng, tier):
             nv = rng.choice([5, 5, 6])
             u = unis.setdefault(("s", nv, 2), simplicial_universe(nv, 2))
             ops, cls, style = walk_cycles(rng, u, rng.choice([30, 40, 50, 60])), "simplicial", "cycles"
+        elif r < 0.24:
+            # graphs only (vertices and edges), long churn: vertices are removed and re-inserted, so that chains swap
+            # their pivots and paired columns get transposed later
+            nv = rng.choice([3, 4, 4, 5])
+            u = unis.setdefault(("s", nv, 1), simplicial_universe(nv, 1))
+            ops, cls, style = walk(rng, u, rng.choice([20, 30, 40, 60]), "churn", 0), "simplicial", "graph-churn"
         elif r < 0.55:
             nv = rng.choice([2, 3, 4, 4, 5, 5, 6, 6])
             md = rng.choice([1, 2, 2, 3, 3])
